@@ -34,6 +34,11 @@ var solvers = []solverSpec{
 	{"cvc5", func(f string, t int) []string {
 		return []string{"cvc5", fmt.Sprintf("--tlimit=%d", t*1000), "--full-saturate-quant", f}
 	}},
+	// the same z3 without its automatic configuration: pure E-matching on the given patterns; decides in
+	// well under a second a class of frame/ownership chains on which the default configuration diverges
+	{"z3-new-noauto", func(f string, t int) []string {
+		return []string{"z3-new", fmt.Sprintf("-T:%d", t), "smt.auto_config=false", f}
+	}},
 }
 
 func runSolver(s solverSpec, file string, timeoutS int) (status string, out string, secs float64) {
@@ -104,9 +109,37 @@ func SolveAll(g *Gen, header string, results []*FnResult, outDir string, par int
 			if short > 1 {
 				short = 1 // most obligations take z3-new a few hundredths of a second; everything else is raced below
 			}
-			st, o, secs := runSolver(solvers[0], file, short)
-			sr.Tried = append(sr.Tried, fmt.Sprintf("%s:%s:%.2fs", solvers[0].name, st, secs))
-			sr.Status, sr.Solver, sr.Seconds, sr.Output = st, solvers[0].name, secs, o
+			// stage 1: z3-new in its default and in its plain E-matching configuration side by side (one pool
+			// slot); the first "unsat" wins and stops the other
+			type r1 struct {
+				s    solverSpec
+				st   string
+				o    string
+				secs float64
+			}
+			ctx1, cancel1 := context.WithCancel(context.Background())
+			ch1 := make(chan r1, 2)
+			for _, s := range []solverSpec{solvers[0], solvers[3]} {
+				go func(s solverSpec) {
+					st, o, secs := runSolverCtx(ctx1, s, file, short)
+					ch1 <- r1{s, st, o, secs}
+				}(s)
+			}
+			var st, o string
+			var secs float64
+			for k := 0; k < 2; k++ {
+				r := <-ch1
+				sr.Tried = append(sr.Tried, fmt.Sprintf("%s:%s:%.2fs", r.s.name, r.st, r.secs))
+				if k == 0 || r.st == "unsat" || (r.st == "sat" && st != "unsat") {
+					st, o, secs = r.st, r.o, r.secs
+					sr.Status, sr.Solver, sr.Seconds, sr.Output = r.st, r.s.name, r.secs, r.o
+				}
+				if r.st == "unsat" && !allSolvers {
+					break
+				}
+			}
+			cancel1()
+			_, _ = o, secs
 			<-sem
 			if st == "unsat" && !allSolvers {
 				out[i] = sr
@@ -123,10 +156,10 @@ func SolveAll(g *Gen, header string, results []*FnResult, outDir string, par int
 				o    string
 				secs float64
 			}
-			ch := make(chan res, 3)
+			ch := make(chan res, 4)
 			cands := []solverSpec{solvers[1], solvers[2]}
 			if timeoutS > short {
-				cands = append(cands, solvers[0])
+				cands = append(cands, solvers[0], solvers[3])
 			}
 			rctx, rcancel := context.WithCancel(context.Background())
 			defer rcancel()
